@@ -13,10 +13,15 @@ THEOREMS = ["C18_row_in_bounds", "C18_entry_in_bounds", "C18_tree_in_bounds", "C
             # every access of every reachable state of the machines M1 / M2 (coq/AccessBounds.v)
             "C18_reachable_m1_access_in_bounds", "C18_reachable_m2_access_in_bounds", "C18_row_index_check"]
 
+SEQ_DESC = ("random sequential histories over exact-size guarded or packed metadata buffers: guard bytes after every call, "
+            "metadata-size computation, atomic-read discipline of stats()/tree_stats() (hooked loads counted per query)")
+
 NOT_COVERED = [
     "aliasing: `AtomicSlice::non_atomic` casts a shared slice to `&mut [T]` (atomic.rs) while other references exist",
-    "data-race freedom of the non-atomic table fill in Lower::free_all / reserve_all and of `*e = Atom::new(..)` in Trees::new "
-    "(non-atomic writes are not reported by the hooks; only the guard bytes around the buffers would notice a stray one)",
+    "data-race freedom in general: only a proxy is checked - the query functions stats() / tree_stats() must read every huge "
+    "entry / tree entry / slot through hooked atomic loads and perform no atomic write (ORACLE [C18] on ACC lines); the "
+    "non-atomic table fill in Lower::free_all / reserve_all and `*e = Atom::new(..)` in Trees::new run before the allocator "
+    "is shared and are not reported by the hooks (only the guard bytes around the buffers would notice a stray write)",
     "pointer provenance of the `from_raw_parts(_mut)` slices (Lower::new x2, Trees::new, OffsetSlice, metadata() x3, NvmAlloc lower slice) "
     "and of the narrow-atomic punning in Bitfield::toggle_int",
     "`b.end.sub(1)` in MetaData::valid's `overlap` on an empty buffer (pointer arithmetic outside the allocation); the model only "
@@ -64,6 +69,14 @@ def run(ctx):
             o, c = schedprop.collect(ctx, "[C18]", jobs, desc, drv)
             oracle += o
             corr += c
+        # sequential histories with exact-size guarded / packed metadata buffers: guard bytes after every call (CANARY), the
+        # metadata-size computation (LAYOUT) and the atomic-read discipline of the query functions (ACC: stats() /
+        # tree_stats() read every entry / slot through hooked atomic loads and never write) - ORACLE [C18] of driver/seq.ml
+        import seqextra
+        o, c = seqextra.seq_suites([dict(suite="random", histories=48, ops=120, desc=SEQ_DESC), dict(suite="random", histories=1500, ops=150, desc=SEQ_DESC)],
+                                   corr=("result",), oracle=("C18",))(ctx)
+        oracle += o
+        corr += c
     vlib.classify(ctx, proofs_ok, oracle, corr, name="zonerun")
     return vlib.finish(
         ctx,
